@@ -472,5 +472,20 @@ def replay(ctx, data) -> int:
         print('overlap monitor:', overlap_monitor(r.log))
         r.close()
         return 0
+    if data.get('section') == 'fl':
+        progs = [[tuple(a) for a in p] for p in data['programs']]
+        r = FLRun(progs, ndelays=data['ndelays'], stale=data['stale'])
+        for lab in data['schedule']:
+            rec = r.step(tuple(lab))
+            print(rec['label'], 'runnable before:', rec['enabled'], 'events:', rec['events'],
+                  'lock file:', rec['view'])
+        print('two-writers monitor:', writers_monitor(r.log))
+        r.close()
+        return 0
+    if data.get('section') == 'thr':
+        section_threading(ctx)
+        for v in ctx.violations:
+            print(v['what'])
+        return 0
     print('nothing to replay for', data.get('section'))
     return 0
